@@ -12,11 +12,43 @@ from bec2format.bf3file import Bf3File, pfid2_filter_to_str
 from bec2format.bec2file import Bec2File
 from bec2format.configid import ConfigId
 
-GLOBALS = [n for n in vars(crypto) if not n.startswith("__")]
+import sys
+import types
+
+
+def _deep(v, depth=0):
+    """value of plain data and containers (tables, registries, caches), identity of everything else"""
+    if isinstance(v, (int, str, bytes, float, bool, type(None))):
+        return v
+    if depth > 4:
+        return ("id", id(v))
+    if isinstance(v, dict):
+        return ("dict", tuple((repr(k), _deep(x, depth + 1)) for k, x in v.items()))
+    if isinstance(v, (list, tuple)):
+        return (type(v).__name__, tuple(_deep(x, depth + 1) for x in v))
+    if isinstance(v, (set, frozenset)):
+        return ("set", tuple(sorted(repr(x) for x in v)))
+    if isinstance(v, bytearray):
+        return ("bytearray", bytes(v))
+    return ("id", id(v))
 
 
 def snapshot():
-    return {n: getattr(crypto, n) for n in GLOBALS}
+    """every module-level name of the library (bec2format.*), containers by value, and the container-valued attributes of
+    its classes (registries such as AUTH_BLOCK_CLS_MAP)"""
+    snap = {}
+    for name, mod in list(sys.modules.items()):
+        if mod is None or not (name == "bec2format" or name.startswith("bec2format.")):
+            continue
+        for k, v in list(vars(mod).items()):
+            if k.startswith("__") or isinstance(v, types.ModuleType):
+                continue
+            snap[name + "." + k] = _deep(v)
+            if isinstance(v, type) and getattr(v, "__module__", None) == name:
+                for ck, cv in list(vars(v).items()):
+                    if not ck.startswith("__") and isinstance(cv, (dict, list, set, bytearray)):
+                        snap[name + "." + k + "." + ck] = _deep(cv)
+    return snap
 
 
 def classify(f):
@@ -35,9 +67,9 @@ def classify(f):
         where = f"{fr[-1].filename[len(REPO) + 1:]}:{fr[-1].lineno} in {fr[-1].name}" if fr else "?"
         out = f"FAIL unrelated exception {type(e).__name__} raised at {where}"
     after = snapshot()
-    changed = [n for n in before if before[n] is not after.get(n, None)] + [n for n in after if n not in before]
+    changed = [n for n in before if before[n] != after.get(n, None)] + [n for n in after if n not in before]
     if changed:
-        return f"FAIL library-global state changed: bec2format.crypto.{changed[0]} (outcome {out})"
+        return f"FAIL library-global state changed: {changed[0]} (outcome {out})"
     return out
 
 
